@@ -16,7 +16,8 @@ from harness.c13 import spellings_ace, spellings_member, clean
 from harness.shadow import rand_w, FLAGS
 
 PROP = "C06"
-TRACE_MODULES = ["Trace_C06", "Trace_C01"]
+TRACE_MODULES = ["Trace_C06", "Trace_C01", "Trace_Acl"]
+HIST_WEIGHTS = dict(Reparse=6, SetPortNr=3, SetProtocolNr=3, Group=2, Ungroup=1, SetPlatform=1, Resequence=1, SetType=1)
 
 
 def parts_of(cls, text):
@@ -335,6 +336,14 @@ def run(tier, seed):
         if v["clause"].startswith("C06.") or v["clause"].startswith("machinery"):
             j, evs = aby[v["tid"]]
             out.append(dict(clause=v["clause"], features=dict(cls="Ace", plat=j["plat"]), case=j, events=evs))
+    # live lists: the text of an Acl whose switches / grouping / platform were assigned after construction must parse
+    # back (under the object's current settings) to the same text - Reparse steps of the ACL machine (Trace_Acl)
+    from harness import aclhist
+    rng3 = random.Random(seed * 15485863 + 62)
+    hjobs = [aclhist.make_history(rng3, t, HIST_WEIGHTS, nops=rng3.randint(2, 6)) for t in range(1, (400 if tier == "quick" else 6000) + 1)]
+    aclhist.fill_permutations(rng3, hjobs)
+    hres = aclhist.run_histories("C06", hjobs, tier, [], "live lists re-parsed after switches were assigned")
+    out += hres["verdicts"]
     distinct = {json.dumps([j["cls"], j["text"], j["kw"]], sort_keys=True) for j in jobs} | {json.dumps([j["plat"], j["line"]]) for j in ajobs}
     per_class = {}
     for j in jobs:
@@ -343,15 +352,18 @@ def run(tier, seed):
     cov = dict(
         states=sum(m.get("states", 0) for m in mcs), transitions=sum(m.get("states", 0) for m in mcs),
         distinct_states=sum(m.get("distinct", 0) for m in mcs),
-        traces_validated_against_impl=len(jobs) + len(ajobs), evaluations=len(events) + len(aevents), distinct_nontrivial=len(distinct),
-        per_class=per_class,
+        traces_validated_against_impl=len(jobs) + len(ajobs) + len(hjobs), evaluations=len(events) + len(aevents) + hres["coverage"]["evaluations"],
+        distinct_nontrivial=len(distinct) + hres["coverage"]["distinct_nontrivial"],
+        per_class=per_class, live_list_histories=dict(n=len(hjobs), trace_validation=hres["coverage"]["trace_validation"]),
         rule="one trace = one object built from text, rendered (T1), rebuilt from T1 (T2) and from T2 (T3) with the same "
              "platform, version, switches and indentation, with the data digests; classes: Port, Protocol, Option, "
              "Wildcard, Address, AddressAg, Remark, Ace, AceGroup, Acl (extended and standard, indent 1..3, numbered or "
              "not, names incl. digits and punctuation), AddrGroup (IOS / NX-OS, with member numbers), and the "
              "config-level functions acls() / addrgroups() on a single section; inputs in native syntax (strict fixed "
              "point demanded) or foreign spellings (meaning kept, stable from the first re-parse); distinct = distinct "
-             "(class, text, settings); every case is non-trivial",
+             "(class, text, settings); every case is non-trivial || LIVE LISTS: Acl objects whose switches, grouping, "
+             "type or platform were assigned after construction, rendered and parsed back under their current settings "
+             "(Reparse steps judged by Trace_Acl)",
         samples=[dict(job=jobs[i], events=ev_lists[i]) for i in (0, len(jobs) // 2, len(jobs) - 1)],
         model_checking=mcs, trace_validation=[vstats, astats], exhaustive=False,
         checker_cmd="tlc MC_AceText, MC_Names, MC_PortSem; tlc Trace_C06, Trace_C01 (W=32, PMax=65535)",
@@ -366,6 +378,9 @@ def replay(path):
         r = json.load(f)
     core._init_worker(core.REPO)
     job = r["case"]
+    if "ops" in job:
+        from harness import aclhist
+        return aclhist.replay_history(path)
     if "line" in job:
         evs = ace_gen.exec_job(job)
         verdicts, _ = core.validate("Trace_C01", evs, nchunks=1)
